@@ -143,6 +143,8 @@ pub struct ASet {
     pub header_text: String,
     pub refs: Vec<RefDesc>,
     pub recs: Vec<Aln>,
+    /// how many same-name templates of each consistency kind the set contains
+    pub pair_stats: Vec<(String, u64)>,
 }
 
 pub const COLS: [&str; 12] = ["qname", "flag", "rname", "pos", "mapq", "cigar", "rnext", "pnext", "tlen", "seq", "qual", "aux"];
@@ -626,6 +628,113 @@ fn rand_record(rng: &mut Rng, idx: usize, refs: &[RefDesc], rgs: &[String], o: &
     Aln { name, flags, rid, pos, mapq, cigar, mrid, mpos, tlen, seq, qual, aux }
 }
 
+/// Ways in which the mate fields of one segment can disagree with its mate ("stale" mate information).
+pub const STALE_KINDS: [&str; 8] = ["none", "pnext", "rnext", "mate-reverse", "mate-unmapped", "tlen-magnitude", "tlen-sign", "tlen-zero"];
+
+/// A template of two primary segments that share a name, both mapped to one reference. The base pair is
+/// mutually consistent in the way the CRAM writer requires for attaching mates (mate reverse / unmapped
+/// bits, RNEXT, PNEXT of each record name the other one; TLEN = +-(rightmost end - leftmost start + 1), positive
+/// on the record that comes first in the file); `kind` then makes the mate fields of the first (`side` 1), the
+/// second (2) or both (3) records stale. Whatever the fields say, every format has to return them as written.
+fn make_pair(rng: &mut Rng, idx: usize, refs: &[RefDesc], rgs: &[String], o: &GenOpts, kind: &str, side: u8) -> (Aln, Aln, &'static str) {
+    let r = rng.usize_below(refs.len());
+    let one = &refs[r..=r];
+    let m = GenOpts { mapped: true, unmapped: false, placed_unmapped: false, max_read: o.max_read, aux: o.aux, long: o.long };
+    let mut a = rand_record(rng, idx, one, rgs, &m);
+    let mut b = rand_record(rng, idx, one, rgs, &m);
+    // mostly the first record in the file is the leftmost one
+    if a.pos > b.pos && rng.chance(3, 4) {
+        std::mem::swap(&mut a, &mut b);
+    }
+    b.name = a.name.clone();
+    let proper = rng.bool();
+    for (x, seg) in [(&mut a, 0x40u16), (&mut b, 0x80u16)] {
+        x.rid = Some(r);
+        x.flags &= 0x10 | 0x200 | 0x400;
+        x.flags |= 0x1 | seg | if proper { 0x2 } else { 0 };
+    }
+    if b.flags & 0x10 != 0 {
+        a.flags |= 0x20;
+    }
+    if a.flags & 0x10 != 0 {
+        b.flags |= 0x20;
+    }
+    let end = |x: &Aln| x.pos.unwrap() + cigar_span(&x.cigar) - 1;
+    let t = (end(&a).max(end(&b)) - a.pos.unwrap().min(b.pos.unwrap()) + 1) as i32;
+    (a.mrid, a.mpos, a.tlen) = (Some(r), b.pos, t);
+    (b.mrid, b.mpos, b.tlen) = (Some(r), a.pos, -t);
+    let kind = if kind == "rnext" && refs.len() < 2 { "pnext" } else { kind };
+    let stale = |x: &mut Aln, rng: &mut Rng| match kind {
+        "none" => {}
+        "pnext" => {
+            let p = x.mpos.unwrap();
+            let d = rng.urange(1, 30);
+            x.mpos = Some(if p > d && rng.bool() { p - d } else { p + d });
+        }
+        "rnext" => x.mrid = Some((r + 1 + rng.usize_below(refs.len() - 1)) % refs.len()),
+        "mate-reverse" => x.flags ^= 0x20,
+        "mate-unmapped" => x.flags ^= 0x8,
+        "tlen-magnitude" => x.tlen += if x.tlen > 0 { rng.range(1, 40) as i32 } else { -(rng.range(1, 40) as i32) },
+        "tlen-sign" => x.tlen = -x.tlen,
+        "tlen-zero" => x.tlen = 0,
+        k => panic!("stale kind {k}"),
+    };
+    if side & 1 != 0 {
+        stale(&mut a, rng);
+    }
+    if side & 2 != 0 {
+        stale(&mut b, rng);
+    }
+    let stat = match (kind, side) {
+        ("none", _) => "consistent",
+        (_, 1) => "stale-first-only",
+        (_, 2) => "stale-second-only",
+        _ => "stale-both",
+    };
+    (a, b, stat)
+}
+
+/// `n` units; a unit is a single read or (with chance `pair_num/pair_den`) a same-name pair whose second
+/// segment follows immediately or after 1..5 other units.
+fn rand_records_with_pairs(rng: &mut Rng, n: usize, refs: &[RefDesc], rgs: &[String], o: &GenOpts, pair_num: u64, pair_den: u64, stats: &mut Vec<(String, u64)>) -> Vec<Aln> {
+    let mut out: Vec<Aln> = Vec::new();
+    let mut delayed: Vec<(usize, Aln)> = Vec::new();
+    for i in 0..n {
+        if !refs.is_empty() && o.mapped && rng.chance(pair_num, pair_den) {
+            let kind = if rng.chance(1, 4) { "none" } else { *rng.pick(&STALE_KINDS[1..]) };
+            let side = *rng.pick(&[1u8, 2, 2, 3]);
+            let (a, b, stat) = make_pair(rng, i, refs, rgs, o, kind, side);
+            bump(stats, stat);
+            out.push(a);
+            if rng.bool() {
+                out.push(b);
+            } else {
+                delayed.push((rng.urange(1, 5), b));
+            }
+        } else {
+            out.push(rand_record(rng, i, refs, rgs, o));
+        }
+        let mut k = 0;
+        while k < delayed.len() {
+            if delayed[k].0 == 0 {
+                out.push(delayed.remove(k).1);
+            } else {
+                delayed[k].0 -= 1;
+                k += 1;
+            }
+        }
+    }
+    out.extend(delayed.into_iter().map(|d| d.1));
+    out
+}
+
+fn bump(stats: &mut Vec<(String, u64)>, k: &str) {
+    match stats.iter_mut().find(|e| e.0 == k) {
+        Some(e) => e.1 += 1,
+        None => stats.push((k.to_string(), 1)),
+    }
+}
+
 fn header_text(refs: &[RefDesc], hd: Option<&str>, rgs: &[String], extras: bool) -> String {
     let mut t = String::new();
     if let Some(hd) = hd {
@@ -660,6 +769,7 @@ pub const DET_CLASSES: &[&str] = &[
     "multi-reference",
     "unmapped-only",
     "multi-block",
+    "mate-pairs",
     "headerless-qname-BAM",
     "headerless-qname-BAM_0001",
     "headerless-qname-BAMBI.7",
@@ -675,7 +785,7 @@ pub const DET_CLASSES: &[&str] = &[
     "witness-placed-unmapped-read-overhanging-reference-end",
 ];
 
-pub const RANDOM_CLASSES: &[&str] = &["many-mixed", "multi-reference", "unmapped-only", "one-mapped", "few-long", "header-only", "multi-block"];
+pub const RANDOM_CLASSES: &[&str] = &["many-mixed", "multi-reference", "unmapped-only", "one-mapped", "few-long", "header-only", "multi-block", "mate-pairs"];
 
 /// One record set of the given class; pure function of (class, seed).
 pub fn make_set(class: &str, seed: u64) -> ASet {
@@ -684,6 +794,7 @@ pub fn make_set(class: &str, seed: u64) -> ASet {
     let hd = *rng.pick(&[Some("@HD\tVN:1.6\tSO:unsorted"), Some("@HD\tVN:1.6"), Some("@HD\tVN:1.5\tSO:unknown\tGO:none"), None]);
     let rgs: Vec<String> = if rng.bool() { vec!["rg0".into(), "rg1.lane-2".into()] } else { Vec::new() };
     let o = |mapped, unmapped, max_read| GenOpts { mapped, unmapped, placed_unmapped: true, max_read, aux: true, long: false };
+    let mut stats: Vec<(String, u64)> = Vec::new();
     let (header_text, refs, recs): (String, Vec<RefDesc>, Vec<Aln>) = match class {
         "empty-header-no-records" => (String::new(), Vec::new(), Vec::new()),
         "header-only" => {
@@ -712,13 +823,14 @@ pub fn make_set(class: &str, seed: u64) -> ASet {
         "many-mixed" => {
             let refs = { let k = rng.urange(1, 3); make_refs(rng, k, 200, 1500) };
             let n = rng.urange(10, 200);
-            let recs = (0..n).map(|i| rand_record(rng, i, &refs, &rgs, &o(true, true, 160))).collect();
+            let recs = rand_records_with_pairs(rng, n, &refs, &rgs, &o(true, true, 160), 1, 4, &mut stats);
             (header_text(&refs, hd, &rgs, rng.bool()), refs, recs)
         }
         "multi-reference" => {
             let refs = { let k = rng.urange(3, 9); make_refs(rng, k, 100, 900) };
             let n = rng.urange(8, 120);
-            let recs = (0..n).map(|i| { let u = rng.bool(); rand_record(rng, i, &refs, &rgs, &o(true, u, 120)) }).collect();
+            let u = rng.bool();
+            let recs = rand_records_with_pairs(rng, n, &refs, &rgs, &o(true, u, 120), 1, 3, &mut stats);
             (header_text(&refs, hd, &rgs, rng.bool()), refs, recs)
         }
         "few-long" => {
@@ -734,8 +846,32 @@ pub fn make_set(class: &str, seed: u64) -> ASet {
             let refs = make_refs(rng, 3, 2500, 5000);
             let n = rng.urange(260, 340);
             let lo = GenOpts { mapped: true, unmapped: true, placed_unmapped: true, max_read: 1200, aux: true, long: true };
-            let recs = (0..n).map(|i| rand_record(rng, i, &refs, &rgs, &lo)).collect();
+            let recs = rand_records_with_pairs(rng, n, &refs, &rgs, &lo, 1, 6, &mut stats);
             (header_text(&refs, hd, &rgs, true), refs, recs)
+        }
+        // every way of being stale x (first, second, both segments) x (adjacent, separated by three other
+        // reads), each as its own same-name template, in one file (one CRAM slice)
+        "mate-pairs" => {
+            let refs = make_refs(rng, 2, 600, 1200);
+            let p = o(true, false, 120);
+            let mut recs: Vec<Aln> = Vec::new();
+            let mut idx = 0usize;
+            for sep in [0usize, 3] {
+                for kind in STALE_KINDS {
+                    for side in [1u8, 2, 3] {
+                        let (a, b, stat) = make_pair(rng, idx, &refs, &rgs, &p, kind, side);
+                        bump(&mut stats, stat);
+                        idx += 1;
+                        recs.push(a);
+                        for _ in 0..sep {
+                            recs.push(rand_record(rng, idx, &refs, &rgs, &o(true, true, 120)));
+                            idx += 1;
+                        }
+                        recs.push(b);
+                    }
+                }
+            }
+            (header_text(&refs, hd.or(Some("@HD\tVN:1.6")), &rgs, false), refs, recs)
         }
         // no header lines; the first read name is (or starts with) a magic number or a prefix of one. None of
         // them is a magic: BAM needs the byte 0x01 and a CRAM/BCF file definition continues with version
@@ -765,7 +901,7 @@ pub fn make_set(class: &str, seed: u64) -> ASet {
         }
         c => panic!("unknown alignment set class {c}"),
     };
-    ASet { class: class.to_string(), header_text, refs, recs }
+    ASet { class: class.to_string(), header_text, refs, recs, pair_stats: stats }
 }
 
 // ---------------------------------------------------------------------------------------------
